@@ -1,12 +1,14 @@
 package props
 
 import (
+	"bufio"
 	"bytes"
 	"fmt"
 	"os"
 	"strings"
 	"time"
 
+	"github.com/alibaba/RedisShake/pkg/libs/atomic2"
 	"github.com/alibaba/RedisShake/pkg/rdb"
 	"github.com/alibaba/RedisShake/pkg/simrt"
 	utils "github.com/alibaba/RedisShake/redis-shake/common"
@@ -224,6 +226,8 @@ func runC02(c *core.Ctx) *core.Violation {
 	var toolProc *simrt.Proc
 	var tgt *modelredis.Server
 	var victim *simnet.Conn
+	restorerDone := false
+	loaderBuf := []int{0, 1, 2, 1024}[t.Choose(4)] // capacity of the parser -> restorer channel
 	cutArmed := t.Choose(10) == 9
 	var cutAfter int64
 	if cutArmed {
@@ -303,7 +307,18 @@ func runC02(c *core.Ctx) *core.Violation {
 				return
 			}
 			defer cn.Close()
-			for i, e := range entries {
+			defer func() { restorerDone = true }()
+			// the entries reach the restorer the way they do in the tool: through utils.NewRDBLoader's channel, with the
+			// parser running as its own task (the scheduler decides how far it runs ahead of the restorer; `entries`,
+			// parsed beforehand, is only the oracle's description of what arrives)
+			var rbytes atomic2.Int64
+			live := utils.NewRDBLoader(bufio.NewReaderSize(bytes.NewReader(file), 64<<10), &rbytes, loaderBuf)
+			for i := range entries {
+				e, ok := <-live
+				if !ok || e == nil {
+					fail("harness-parse", "live", "the live parse delivered %d entries, the reference parse %d", i, len(entries))
+					return
+				}
 				r := &result{t0: s.Now(), now0Ms: time.Now().UnixNano() / 1e6}
 				results[i] = r
 				r.err = utils.RestoreRdbEntry(cn, e)
@@ -315,7 +330,7 @@ func runC02(c *core.Ctx) *core.Violation {
 				}
 			}
 		})
-		for i := 0; i < 30000 && s.LiveTasks(toolProc) > 0; i++ {
+		for i := 0; i < 30000 && !restorerDone && s.Alive(toolProc); i++ {
 			s.Sleep(100 * time.Millisecond)
 		}
 		if viol != nil {
